@@ -542,6 +542,17 @@ struct Elem<resolvo::String> {
     }
 };
 
+template <>
+struct Elem<std::string> {
+    // an element type with a real move constructor: a moved-from element is observably different
+    static std::string make(uint32_t k) { return "element-with-a-long-enough-name-to-live-on-the-heap-" + std::to_string(k); }
+    static uint32_t key(const std::string &s) {
+        size_t p = s.rfind('-');
+        if (p == std::string::npos) return 0xffffffffu;
+        return static_cast<uint32_t>(strtoul(s.c_str() + p + 1, nullptr, 10));
+    }
+};
+
 struct Op {
     int kind, a, b;
 };
@@ -924,6 +935,7 @@ int main(int argc, char **argv) {
     int shallow = getenv("C17_STRIDE_MULT") ? 1 : 0;
     run_containers<SolvableId>("SolvableId", (tier ? 5 : 4) - shallow);
     run_containers<resolvo::String>("String", tier ? 4 : 3);
+    run_containers<std::string>("StdString", tier ? 4 : 3);
     run_differential(tier, seed);
     if (rv_mismatches() != 0)
         violation("layout-mismatch-on-free", std::to_string(rv_mismatches()) + " blocks were freed with a different layout than they were allocated with",
